@@ -180,6 +180,31 @@ func (e *c12Env) run(c c12Case) (obs, bad string) {
 	var u *url.URL
 	var uText string
 	var uCopy url.URL
+	// observer DURING the calls: at every statement the library executes, everything the caller owns must be as
+	// the caller left it - a write that is undone before the call returns is still a write (another goroutine
+	// holding the same value sees it)
+	var duringExtra func() string
+	duringBad := ""
+	irt.SetPointHook(func() {
+		if duringBad != "" {
+			return
+		}
+		switch {
+		case a.changed() != "":
+			duringBad = "caller's bytes modified: " + a.changed()
+		case cfg != cfgCopy || rawCfg != rawCopy:
+			duringBad = fmt.Sprintf("suite configuration modified: %+v -> %+v / %+v", cfgCopy, cfg, rawCfg.SuiteConfig)
+		case caller != callerCopy:
+			duringBad = fmt.Sprintf("caller's Param modified: %+v -> %+v", callerCopy, caller)
+		case up != upCopy:
+			duringBad = "URLParam modified"
+		case u != nil && uText != "" && !reflect.DeepEqual(*u, uCopy):
+			duringBad = fmt.Sprintf("the URL the caller passed to the parser was modified (%q -> query %q, host %q)", uText, u.RawQuery, u.Host)
+		case duringExtra != nil:
+			duringBad = duringExtra()
+		}
+	})
+	defer irt.SetPointHook(nil)
 	step := func(op string) string {
 		return try(func() {
 			switch op {
@@ -288,7 +313,14 @@ func (e *c12Env) run(c c12Case) (obs, bad string) {
 					if pu.User != nil {
 						ui = *pu.User
 					}
+					duringExtra = func() string {
+						if !reflect.DeepEqual(*pu, before) || (pu.User != nil && *pu.User != ui) {
+							return fmt.Sprintf("ParseOTPAuthURL changed the caller's URL %q while it was running (query %q, host %q)", beforeText, pu.RawQuery, pu.Host)
+						}
+						return ""
+					}
 					back, perr := otp.ParseOTPAuthURL(pu)
+					duringExtra = nil
 					results = append(results, fmt.Sprint(i, perr != nil))
 					if back != nil {
 						retain(&kept, op, []string{back.Issuer, back.AccountName, back.Secret})
@@ -380,6 +412,9 @@ func (e *c12Env) run(c c12Case) (obs, bad string) {
 		}
 		if pn != "" {
 			return "" // panics are C10's concern
+		}
+		if duringBad != "" {
+			return when + ": in the middle of a call: " + duringBad
 		}
 		if ch := a.changed(); ch != "" {
 			return when + ": caller's bytes modified: " + ch
